@@ -534,6 +534,31 @@ fn make_deque<T: Clone>(data: Vec<T>, head: usize) -> VecDeque<T> {
 pub const ROLL_DRIVERS: u8 = 12;
 /// pseudo driver: `v.opt().slice(s, e)` for every window in and just outside the view
 pub const SLICE_SWEEP: u8 = 20;
+/// pseudo drivers: rolling_custom / rolling2_custom with a caller buffer (`out = Some(..)`): on a
+/// back end without the buffer-path override the lazy iterator is *written* into the buffer
+pub const CUSTOM_OUT: u8 = 14;
+pub const CUSTOM2_OUT: u8 = 15;
+
+/// what the simulator-owned caller buffer saw
+pub struct BufReport {
+    pub len: usize,
+    pub log: Vec<usize>,
+    pub oob: Vec<usize>,
+    pub twice: Vec<usize>,
+    pub holes: usize,
+    pub returned_some: bool,
+}
+
+fn buf_report(u: SimUninit<i32>, returned_some: bool) -> BufReport {
+    BufReport {
+        len: u.slots.len(),
+        holes: u.slots.iter().filter(|s| s.is_none()).count(),
+        log: u.log,
+        oob: u.oob,
+        twice: u.twice,
+        returned_some,
+    }
+}
 
 fn drive<V>(v: &V, o: &V, driver: u8, w: usize) -> Result<(), String>
 where
@@ -666,21 +691,22 @@ pub fn check_roll(r: &Roll) -> (Vec<Violation>, RunStats) {
     let other_len = (data.len() as i64 + r.other_delta).max(0) as usize;
     let other: Vec<f64> = (0..other_len).map(|i| if i < data.len() { data[i] } else { i as f64 * 0.5 }).collect();
     let unequal = other_len != data.len();
-    let res = guarded(move || -> Result<(), String> {
+    let res = guarded(move || -> Result<Option<BufReport>, String> {
+        let unit = |r: Result<(), String>| r.map(|()| None);
         match &backend {
             Backend::Vec => match driver {
                 4 => {
                     let _: SimVec<i32> = data.rolling_custom(w, |s: &[f64]| s.len() as i32, None).unwrap();
-                    Ok(())
+                    Ok(None)
                 },
                 _ if unequal => Err(format!("{HARNESS} unequal series are not used with buffer-path backends")),
                 5 => {
                     let _: SimVec<i32> = data
                         .rolling2_custom(&data, w, |a: &[f64], b: &[f64]| (a.len() + b.len()) as i32, None)
                         .unwrap();
-                    Ok(())
+                    Ok(None)
                 },
-                d => drive(&data, &data, d, w),
+                d => unit(drive(&data, &data, d, w)),
             },
             Backend::Deque { head } => {
                 let v = make_deque(data, *head);
@@ -692,7 +718,29 @@ pub fn check_roll(r: &Roll) -> (Vec<Violation>, RunStats) {
                                 ExactSizeIterator::len(&s) as i32
                             }, None)
                             .unwrap();
-                        Ok(())
+                        Ok(None)
+                    },
+                    CUSTOM_OUT => {
+                        let mut u = <SimVec<i32> as Vec1<i32>>::uninit(v.len());
+                        let r: Option<SimVec<i32>> = v.rolling_custom(
+                            w,
+                            |s: std::collections::vec_deque::Iter<'_, f64>| ExactSizeIterator::len(&s) as i32,
+                            Some(<SimVec<i32> as Vec1<i32>>::uninit_ref_mut(&mut u)),
+                        );
+                        Ok(Some(buf_report(u, r.is_some())))
+                    },
+                    CUSTOM2_OUT => {
+                        let mut u = <SimVec<i32> as Vec1<i32>>::uninit(v.len());
+                        let r: Option<SimVec<i32>> = v.rolling2_custom(
+                            &o,
+                            w,
+                            |a: std::collections::vec_deque::Iter<'_, f64>,
+                             b: std::collections::vec_deque::Iter<'_, f64>| {
+                                (ExactSizeIterator::len(&a) + ExactSizeIterator::len(&b)) as i32
+                            },
+                            Some(<SimVec<i32> as Vec1<i32>>::uninit_ref_mut(&mut u)),
+                        );
+                        Ok(Some(buf_report(u, r.is_some())))
                     },
                     5 => {
                         let _: SimVec<i32> = v
@@ -706,22 +754,47 @@ pub fn check_roll(r: &Roll) -> (Vec<Violation>, RunStats) {
                                 None,
                             )
                             .unwrap();
-                        Ok(())
+                        Ok(None)
                     },
-                    d => drive(&v, &o, d, w),
+                    d => unit(drive(&v, &o, d, w)),
                 }
             },
             Backend::ArcDeque { head } => {
-                drive(&Arc::new(make_deque(data, *head)), &Arc::new(make_deque(other, *head)), driver, w)
+                unit(drive(&Arc::new(make_deque(data, *head)), &Arc::new(make_deque(other, *head)), driver, w))
             },
             Backend::Array1 if unequal => {
                 Err(format!("{HARNESS} unequal series are not used with buffer-path backends"))
             },
             Backend::Array1 => {
                 let a = Array1::from_vec(data);
-                drive(&a, &a, driver, w)
+                unit(drive(&a, &a, driver, w))
             },
-            Backend::SimInput => drive(&SimVec::from_vec(data), &SimVec::from_vec(other), driver, w),
+            Backend::SimInput => {
+                let v = SimVec::from_vec(data);
+                let o = SimVec::from_vec(other);
+                match driver {
+                    CUSTOM_OUT => {
+                        let mut u = <SimVec<i32> as Vec1<i32>>::uninit(v.items.len());
+                        let r: Option<SimVec<i32>> = v.rolling_custom(
+                            w,
+                            |s: &[f64]| s.len() as i32,
+                            Some(<SimVec<i32> as Vec1<i32>>::uninit_ref_mut(&mut u)),
+                        );
+                        Ok(Some(buf_report(u, r.is_some())))
+                    },
+                    CUSTOM2_OUT => {
+                        let mut u = <SimVec<i32> as Vec1<i32>>::uninit(v.items.len());
+                        let r: Option<SimVec<i32>> = v.rolling2_custom(
+                            &o,
+                            w,
+                            |a: &[f64], b: &[f64]| (a.len() + b.len()) as i32,
+                            Some(<SimVec<i32> as Vec1<i32>>::uninit_ref_mut(&mut u)),
+                        );
+                        Ok(Some(buf_report(u, r.is_some())))
+                    },
+                    d => unit(drive(&v, &o, d, w)),
+                }
+            },
             _ => Err(format!("{HARNESS} backend not available for rolling scenarios")),
         }
     });
@@ -747,7 +820,26 @@ pub fn check_roll(r: &Roll) -> (Vec<Violation>, RunStats) {
             }
         },
         Ok(Err(e)) => st.harness_error = Some(e),
-        Ok(Ok(())) => {},
+        Ok(Ok(None)) => {},
+        Ok(Ok(Some(b))) => {
+            // C19, buffer clause: the lazy iterator written into the caller's buffer fills
+            // every slot exactly once and nothing else
+            st.hit("rolling_lazy_iterator_written_into_caller_buffer");
+            let mut seen = b.log.clone();
+            seen.sort();
+            let want: Vec<usize> = (0..b.len).collect();
+            if !b.oob.is_empty() || !b.twice.is_empty() || b.holes > 0 || seen != want || b.returned_some {
+                viol.push(Violation {
+                    props: vec!["C19"],
+                    oracle: "K4",
+                    stage: format!("{stage}<out buffer>"),
+                    detail: format!(
+                        "buffer of length {}: uset calls at {:?}, out of bounds {:?}, written twice {:?}, never written {}, returned Some = {}",
+                        b.len, b.log, b.oob, b.twice, b.holes, b.returned_some
+                    ),
+                });
+            }
+        },
     }
     let mut lazy = 0;
     for rec in &log.streams {
